@@ -12,7 +12,9 @@ import (
 	"flag"
 	"fmt"
 	"os"
+	"path/filepath"
 	"strings"
+	"verif/harness/internal/sched"
 
 	"verif/harness/internal/val"
 	"verif/harness/internal/vc"
@@ -39,7 +41,13 @@ func main() {
 			os.Exit(2)
 		}
 		r := vc.NewRun(prop, *tier, *seed, *out)
+		nrun := 0
+		sched.Inflight = func(desc string) {
+			nrun++
+			_ = os.WriteFile(filepath.Join(*out, "inflight.txt"), []byte(fmt.Sprintf("run #%d of %s --tier %s --seed %d: %s\n", nrun, prop, *tier, *seed, desc)), 0o644)
+		}
 		g(r)
+		_ = os.Remove(filepath.Join(*out, "inflight.txt"))
 		r.Finish()
 	case "exec":
 		sc := bufio.NewScanner(os.Stdin)
